@@ -173,17 +173,23 @@ M["m16-goroutine-reads-state"] = ("CreateSession starts a goroutine that reads t
 	return i.createSessionLocked(id, auth, timestamp)""")],
     [(IRC + ":IRCServer.CreateSession$1", "IRCServer.sessions", "R")])
 
-M["m17-getnext-early-unlock"] = ("GetNext releases messagesMu before the wait loop's first lookup", [
-    (OS_, """	// Wait until a new message appears.
-	os.messagesMu.Lock()
-	for {
-		current, _ = os.getUnlocked(uint64(current.Messages[0].Id.Id))""", """	// Wait until a new message appears.
-	os.messagesMu.Lock()
-	os.messagesMu.Unlock()
-	_ = os.lastseen.NextID
-	os.messagesMu.Lock()
-	for {
-		current, _ = os.getUnlocked(uint64(current.Messages[0].Id.Id))""")],
+M["m17-getnext-early-unlock"] = ("GetNext's wait loop drops messagesMu and reads lastseen before re-locking", [
+    (OS_, """		select {
+		case <-ctx.Done():
+			os.messagesMu.Unlock()
+			return []Message{}
+		default:
+		}
+		os.newMessage.Wait()""", """		select {
+		case <-ctx.Done():
+			os.messagesMu.Unlock()
+			return []Message{}
+		default:
+		}
+		os.messagesMu.Unlock()
+		_ = os.lastseen.NextID
+		os.messagesMu.Lock()
+		os.newMessage.Wait()""")],
     [(OS_ + ":OutputStream.GetNext", "OutputStream.lastseen", "R")])
 
 M["m18-new-field-unclassified"] = ("a new field is added to IRCServer (guard map does not know it)", [
